@@ -63,6 +63,7 @@ THEOREMS = [
     "Cotengra.C11.perm_is_perm",
     "Cotengra.C11.tensordot_eq_wellformed",
     "Cotengra.C11.tensordot_plan_sound",
+    "Cotengra.C11.planOK_sound",
 ]
 TRUSTED = [
     "Lean 4.33 kernel; axioms ⊆ {propext, Classical.choice, Quot.sound}",
@@ -343,6 +344,7 @@ def check_equation2(ctx, drv, st, a, b, out, shape_assignments):
         return
     # one assignment per equation gets the Lean evaluation as well (validates the numpy model)
     lean_eval_at = st["rs"].integers(0, len(shapes))
+    todo = []
     for k, ((sa, sb), row) in enumerate(zip(shapes, resp["plans"])):
         dm = shape_assignments[k]
         sz = dict(zip(syms, dm))
@@ -371,17 +373,26 @@ def check_equation2(ctx, drv, st, a, b, out, shape_assignments):
             ctx.violation({"site": "contract.einsum/2", "class": cls}, case,
                           f"contract.einsum({eq!r}) on shapes {tuple(sa)},{tuple(sb)}: {detail}")
             continue
-        # --- correspondence of the plan -------------------------------------------------------
+        todo.append((k, sa, sb, row, real, case, xa, xb))
+    if not todo:
+        return
+    # --- (A) the verified checker on the real plans: accepted => correct for ALL arrays -----------
+    rok = drv.call("c11.planok", a=A, b=B, out=O,
+                   cases=[{"shape_a": sa, "shape_b": sb, "plan": real} for _, sa, sb, _, real, _, _, _ in todo])
+    if "error" in rok:
+        ctx.corr_broken("driver error in c11.planok: " + rok["error"], {"eq": eq})
+        return
+    for (k, sa, sb, row, real, case, xa, xb), accepted in zip(todo, rok["ok"]):
         ctx.traces += 1
         model = row[st["variant"]]
-        need_eval = (k == lean_eval_at)
         if real != model:
             ctx.count("plan_differs_from_model")
-            need_eval = True
+        if accepted is True:
+            ctx.count("planOK_accepted")
+        need_eval = (k == lean_eval_at) or accepted is not True
         if need_eval:
-            payload = dict(a=A, b=B, out=O, shape_a=sa, shape_b=sb, data_a=case["a"], data_b=case["b"],
-                           len_check=(st["variant"] == "fixed"))
-            if real != model and real is not None:
+            payload = dict(a=A, b=B, out=O, shape_a=sa, shape_b=sb, data_a=case["a"], data_b=case["b"])
+            if real is not None:
                 payload["plan"] = real
             r2 = drv.call("c11.eval2", **payload)
             val = np.asarray(cmod.einsum(eq, xa, xb))
@@ -390,37 +401,40 @@ def check_equation2(ctx, drv, st, a, b, out, shape_assignments):
             if "error" in r2 or r2.get("spec") != want:
                 ctx.corr_broken("Lean reference einsum2 differs from the real result", case)
             elif r2.get("value") != want:
-                if real != model:
-                    ctx.corr_broken("real plan differs from the model's and is not admitted by the Lean "
-                                    "array semantics", {"case": case, "real_plan": real, "model_plan": model})
-                else:
-                    ctx.corr_broken("Lean evaluation of the plan differs from the real result", case)
-            elif real != model:
+                ctx.corr_broken("the real plan, evaluated by the Lean array semantics, does not give the "
+                                "real result", {"case": case, "real_plan": real, "model_plan": model})
+            elif accepted is not True:
+                # correct on these arrays but outside what planOK can certify: not covered by the proof
                 st["admitted"] += 1
+                ctx.count("planOK_rejected_but_evaluates_correctly")
 
 
-def run_two_operand(ctx, drv, st, K, R, complete, budget_s, sample_eqs=None):
+def run_two_operand(ctx, drv, st, K, R, complete, reserve=20, sample_eqs=None, n_outs=6, n_assign=8):
+    """complete: every output and every size assignment of every equation; otherwise a seeded sample of
+    equations (all of them if sample_eqs is None), outputs and assignments.  Stops when less than `reserve`
+    seconds of the budget are left."""
     all_dims = {k: list(itertools.product((1, 2, 3), repeat=k)) for k in range(K + 1)}
     eqs = list(equations2(K, R))
     if not complete:
         ctx.rng.shuffle(eqs)
-        eqs = eqs[:sample_eqs]
-    t_end = (ctx.time_left() - budget_s) if budget_s else 0
+        if sample_eqs is not None:
+            eqs = eqs[:sample_eqs]
     done = 0
     for a, b in eqs:
-        if ctx.time_left() < max(t_end, 20):
-            st["truncated"] = True
+        if ctx.time_left() < reserve:
+            if complete:
+                st["truncated"] = True
             break
         syms = sorted(set(a) | set(b))
         outs = list(all_outputs(syms))
         dims = all_dims[len(syms)]
         if not complete:
-            outs = ctx.rng.sample(outs, min(len(outs), 6))
+            outs = ctx.rng.sample(outs, min(len(outs), n_outs))
         for out in outs:
             if complete:
                 assign = dims
             else:
-                assign = ctx.rng.sample(dims, min(len(dims), 8))
+                assign = ctx.rng.sample(dims, min(len(dims), n_assign))
             check_equation2(ctx, drv, st, a, b, out, assign)
         done += 1
     return done, len(eqs)
@@ -669,9 +683,18 @@ def run_tensordot(ctx, drv, st, rmax, complete):
                         model = resp.get(st["variant"]) if "err" not in resp else None
                         if "error" in resp:
                             ctx.corr_broken("driver error in c11.tdeq: " + resp["error"], case)
-                        elif real != model:
-                            # (A) a different plan is fine if the Lean array semantics admits it
-                            ctx.count("plan_differs_from_model")
+                        else:
+                            if real != model:
+                                ctx.count("plan_differs_from_model")
+                            # (A) the verified checker on the real plan
+                            acc = None
+                            if real is not None:
+                                rk = drv.call("c11.planok", a=cps(A), b=cps(B), out=cps(O),
+                                              cases=[{"shape_a": list(sa), "shape_b": list(sb), "plan": real}])
+                                acc = rk.get("ok", [None])[0]
+                            if acc is True:
+                                ctx.count("planOK_accepted")
+                                continue
                             ok_adm = False
                             if real is not None and model is not None:
                                 r2 = drv.call("c11.eval2", a=cps(A), b=cps(B), out=cps(O), shape_a=list(sa),
@@ -681,6 +704,7 @@ def run_tensordot(ctx, drv, st, rmax, complete):
                                 ok_adm = "error" not in r2 and r2.get("spec") == want and r2.get("value") == want
                             if ok_adm:
                                 st["admitted"] += 1
+                                ctx.count("planOK_rejected_but_evaluates_correctly")
                             else:
                                 ctx.corr_broken("_parse_tensordot_axes_to_matmul differs from the model and is "
                                                 "not admitted by the Lean array semantics",
@@ -717,17 +741,20 @@ def run(ctx, drv):
         run_single(ctx, drv, st, K=3, L=4, complete=True)
         run_tensordot(ctx, drv, st, rmax=2, complete=True)
         run_tensordot(ctx, drv, st, rmax=3, complete=False)
-        d1 = run_two_operand(ctx, drv, st, K=3, R=3, complete=True, budget_s=0)
-        d2 = run_two_operand(ctx, drv, st, K=4, R=3, complete=False, budget_s=0, sample_eqs=150)
+        d1 = run_two_operand(ctx, drv, st, K=3, R=3, complete=True)
+        d2 = run_two_operand(ctx, drv, st, K=4, R=3, complete=False, sample_eqs=150)
         ctx.notes["two_operand"] = {"K3_R3_equations_done/total": d1, "K4_R3_sampled": d2}
     else:
         run_single(ctx, drv, st, K=4, L=5, complete=True)
         run_tensordot(ctx, drv, st, rmax=3, complete=True)
-        d1 = run_two_operand(ctx, drv, st, K=4, R=3, complete=True, budget_s=0)
-        d2 = run_two_operand(ctx, drv, st, K=5, R=4, complete=False, budget_s=0, sample_eqs=2500)
-        ctx.notes["two_operand"] = {"K4_R3_equations_done/total": d1, "K5_R4_sampled": d2}
+        d1 = run_two_operand(ctx, drv, st, K=4, R=3, complete=True)
+        # every equation with <= 5 symbols and rank <= 4, a seeded sample of its outputs and size
+        # assignments, for at most ~17 minutes of the budget
+        d2 = run_two_operand(ctx, drv, st, K=5, R=4, complete=False, reserve=ctx.budget_s - 1000,
+                             n_outs=12, n_assign=16)
+        ctx.notes["two_operand"] = {"K4_R3_equations_done/total": d1, "K5_R4_equations_sampled/total": d2}
     ctx.exhaustive = not st["truncated"]
-    ctx.notes["plans_differing_from_model_but_admitted"] = st["admitted"]
+    ctx.notes["real_plans_rejected_by_planOK_but_correct_on_the_tested_arrays"] = st["admitted"]
     ctx.notes["enumeration_truncated_by_budget"] = st["truncated"]
 
 
